@@ -45,7 +45,7 @@ func (s *Protocol) Invoke(ctx context.Context, req []byte) (rsp []byte) {
 	defer CheckPanic()
 	reqPackage := requestf.RequestPacket{}
 	rspPackage := requestf.ResponsePacket{}
-	is := codec.NewReader(req[4:])
+	is := codec.NewReader(packageBody(req))
 	reqPackage.ReadFrom(is)
 	// known from here on, also to a handle timeout that fires before this call ends
 	current.SetPacketTypeFromContext(ctx, reqPackage.CPacketType)
@@ -162,6 +162,15 @@ func (s *Protocol) Invoke(ctx context.Context, req []byte) (rsp []byte) {
 	return s.rsp2Byte(&rspPackage)
 }
 
+// packageBody returns what follows the 4-byte length of a package; a UDP
+// datagram can be shorter than that length field.
+func packageBody(pkg []byte) []byte {
+	if len(pkg) < 4 {
+		return nil
+	}
+	return pkg[4:]
+}
+
 func (s *Protocol) req2Byte(rsp *requestf.ResponsePacket) []byte {
 	req := requestf.RequestPacket{}
 	req.IVersion = rsp.IVersion
@@ -219,7 +228,7 @@ func (s *Protocol) InvokeTimeout(pkg []byte) []byte {
 	rspPackage := requestf.ResponsePacket{}
 	//  invoke timeout need to return IRequestId
 	reqPackage := requestf.RequestPacket{}
-	is := codec.NewReader(pkg[4:])
+	is := codec.NewReader(packageBody(pkg))
 	reqPackage.ReadFrom(is)
 	rspPackage.IRequestId = reqPackage.IRequestId
 	rspPackage.IVersion = reqPackage.IVersion
